@@ -169,6 +169,9 @@ type Listener struct {
 	// FinAfterUs > 0: the target closes its side that long after its SYN-ACK: a FIN|ACK without SACK
 	// blocks arrives while probes are out (it keeps answering probes with duplicate ACKs afterwards)
 	FinAfterUs int64 `json:"finAfterUs,omitempty"`
+	// GreetingLen > 0: the target sent that many bytes of its own right after the handshake (a service
+	// banner); the capture handle never saw them, the sequence numbers of its later segments show it
+	GreetingLen int `json:"greetingLen,omitempty"`
 	TruncTS    bool  `json:"truncTS,omitempty"`
 }
 
@@ -191,6 +194,11 @@ type Knobs struct {
 	PacketIDBase    uint32 `json:"packetIDBase,omitempty"`
 	SetPacketIDBase bool   `json:"setPacketIDBase,omitempty"`
 	EchoIDBase      uint32 `json:"echoIDBase,omitempty"`
+	// LocalPort > 0: the kernel hands out exactly this local port while the scenario runs (the
+	// worker's private network namespace gets a one-port ip_local_port_range): what depends on the
+	// kernel's choice (checksums, tags derived from the port) becomes a function of the scenario.
+	// Only for scenarios with one endpoint alive at a time and no real TCP connection.
+	LocalPort int `json:"localPort,omitempty"`
 	// SetTCPSeq: the TCP SYN driver's sequence numbers come from a source that starts at TCPSeqBase
 	// (default mode: the run's one sequence number; Paris mode: the first probe's, later probes get
 	// values spread over the sequence space) instead of the random generator
